@@ -682,8 +682,20 @@ def _hang_violation(r):
     return v
 
 
+def _startup_failure(e):
+    from .kernel import Digest
+    e.step_index = 0
+    return {"violation": e.as_dict(), "steps": [], "choices": [], "choice_alternatives": [], "digest": Digest().hex(),
+            "events": 0, "probes": {}, "faults": {"server-does-not-start": 1}, "quanta": 0, "multi_event_quanta": 0,
+            "states": set(), "interleavings": set(), "sim_seconds": 0.0, "hub_errors": [], "max_alternatives": 0,
+            "foreign_seen": {}}
+
+
 def run_generated(data_dir, seed_rng, config, run_cls=QsRun, **kw):
-    r = run_cls(data_dir, rng=seed_rng, config=config, **kw)
+    try:
+        r = run_cls(data_dir, rng=seed_rng, config=config, **kw)
+    except Violation as e:
+        return _startup_failure(e)
     v = None
     try:
         try:
@@ -701,7 +713,10 @@ def run_generated(data_dir, seed_rng, config, run_cls=QsRun, **kw):
 
 
 def run_script(data_dir, script, choices, run_cls=QsRun, epilogue=True, **kw):
-    r = run_cls(data_dir, script=script, choices=choices, **kw)
+    try:
+        r = run_cls(data_dir, script=script, choices=choices, **kw)
+    except Violation as e:
+        return _startup_failure(e)
     v = None
     try:
         try:
